@@ -1,4 +1,6 @@
 mod magic_table;
+#[cfg(chess_verif)]
+pub use magic_table::magic_entries_for_verif;
 mod targets;
 
 use std::num::NonZeroUsize;
@@ -58,6 +60,25 @@ impl Default for MoveGenerator {
 impl MoveGenerator {
     pub fn new() -> Self {
         Self::default()
+    }
+
+    /// Verification hook: a generator whose move cache holds at most `capacity`
+    /// entries, so that a fresh generator per position is cheap.
+    #[cfg(chess_verif)]
+    pub fn with_cache_capacity(capacity: usize) -> Self {
+        Self {
+            targets: Targets::default(),
+            cache: LruCache::new(NonZeroUsize::new(capacity.max(1)).unwrap()),
+            hit_count: 0,
+        }
+    }
+
+    /// Verification hook: forget every cached answer (move lists and attack maps),
+    /// which makes this generator indistinguishable from a newly created one.
+    #[cfg(chess_verif)]
+    pub fn clear_caches_for_verif(&mut self) {
+        self.cache.clear();
+        self.targets.clear_attacks_cache_for_verif();
     }
 
     pub fn cache_hit_count(&self) -> usize {
